@@ -13,7 +13,8 @@ from symex.values import FALSE, TRUE, SBool, SFloat, SInt, STime, mk_and, mk_eq,
 from .rel import Pair
 from . import c03, c08, c09, c10, c11, c12, c13, c14
 
-DATA_CARRIERS = ["list_none", "tuple_nan", "float32", "masked", "series", "series_idx", "dask", "int64"]
+DATA_CARRIERS = ["list_none", "tuple_nan", "float32", "masked", "series", "series_idx", "dask", "int64", "uint16", "int8"]
+INT_CARRIERS = {"int64": None, "uint16": (0, 2000), "int8": (-100, 100)}     # value range assumed for the narrow ones
 TIME_CARRIERS = ["us", "s", "ms", "pydt", "ts", "dti", "dti_utc", "ser", "ser_utc", "epoch_int", "epoch_float", "epoch_list"]
 
 
@@ -55,8 +56,8 @@ class CarrierKit:
             base = snp.ndarray.from_list(vals, "float64", owner="caller")
             if c == "float32":
                 return snp.ndarray.from_list(vals, "float32", owner="caller")
-            if c == "int64":
-                return snp.ndarray.from_list([SInt(z3.ToInt(v.v)) for v in vals], "int64", owner="caller")
+            if c in INT_CARRIERS:
+                return snp.ndarray.from_list([SInt(z3.ToInt(v.v)) for v in vals], c, owner="caller")
             if c == "masked":
                 data = [SFloat(FALSE, mk_if(v.nan, z3.RealVal(7), v.v)) for v in vals]
                 return K.marray(data, [SBool(v.nan) for v in vals])
@@ -70,8 +71,8 @@ class CarrierKit:
             import pandas as pd
             if c == "float32":
                 return np.array(vals, dtype=np.float32)
-            if c == "int64":
-                return np.array(vals, dtype=np.int64)
+            if c in INT_CARRIERS:
+                return np.array(vals, dtype=c)
             if c == "masked":
                 return np.ma.MaskedArray(np.array([7.0 if v != v else v for v in vals], dtype=float), mask=[v != v for v in vals])
             if c == "series":
@@ -171,11 +172,14 @@ class Carrier(Pair):
         S = self.a.declare(V)
         if hasattr(self.a, "valid_params"):
             V.assume(self.a.valid_params(S))
-        if self.data in ("int64",):
+        if self.data in INT_CARRIERS:
+            rng = INT_CARRIERS[self.data]
             for name in DATA_FIELDS:
                 for v in getattr(S, name, []) or []:
                     if isinstance(v, SFloat):
                         V.assume(mk_not(v.nan), z3.IsInt(v.v))
+                        if rng is not None:
+                            V.assume(v.v >= rng[0], v.v <= rng[1])
         if self.integer:
             # whole numbers only: without a dtype valid_range_test guesses "epoch seconds" for a plain list, and the time
             # model is whole-second
@@ -229,7 +233,7 @@ def jobs(tier):
         for c in DATA_CARRIERS:
             if not missing_ok and c == "masked":
                 continue
-            if isinstance(base, c03.ValidRange) and c == "int64":
+            if isinstance(base, c03.ValidRange) and c in INT_CARRIERS:
                 continue      # valid_range_test compares in the data's own dtype: integer data needs an integer span (documented)
             out.append(Carrier(base, data=c, integer=isinstance(base, c03.ValidRange) and c in ("list_none", "tuple_nan")))
     time_bases = [c10.RateOfChange(n), c11.FlatLine(n, 60), c12.Attenuated(n, "range", True), c10.Speed(2),
@@ -262,7 +266,7 @@ OUTSIDE = ["valid_range_test: float32 data with a span that is not exact in bina
            "tz-aware datetimes as *data*", "the library conversions themselves (np.array(list), Series.to_numpy(), datetime64 unit casts, tz stripping, dask "
            "compute) are environment-model contracts; every path witness is replayed through the real carriers (incl. real dask, "
            "float32, pandas) which is where a wrong contract would surface",
-           "float32: values restricted to |x|<=1024 on the 2^-10 grid (exact in binary32)", "int64: integer values, nothing missing",
+           "float32: values restricted to |x|<=1024 on the 2^-10 grid (exact in binary32)", "int64 / uint16 / int8: integer values (0..2000 and -100..100 for the narrow ones), nothing missing",
            "time zones other than UTC", "series longer than 3"]
 ASSUMPTIONS = ["carrier models expose exactly the attributes ioos_qc inspects (dtype, dtype.tz, .dt, .to_numpy, .values, .shape, "
                "array protocol, mask)", "numpy/pandas environment model validated per path against the real stack"]
